@@ -365,6 +365,38 @@ template <class G> std::string checkEdgesOnly(const G &g, const Expect &x, ObsCo
     return "";
 }
 
+// the same verdict for large sparse graphs, without enumerating all vertex pairs: size, edge count, the enumerated
+// edges as a multiset, hasEdge for every expected edge
+template <class G> std::string checkEdgesSparse(const G &g, const Expect &x) {
+    std::ostringstream m;
+    try {
+        if (g.getSize() != x.n) {
+            m << "getSize: expected " << x.n << " got " << g.getSize();
+            return m.str();
+        }
+        if (g.getEdgeNumber() != x.totalCopies()) {
+            m << "getEdgeNumber: expected " << x.totalCopies() << " got " << g.getEdgeNumber();
+            return m.str();
+        }
+        std::vector<Edge> got;
+        if (!collectEdges(g, x.totalCopies() * 2 + 8, got)) return "edges(): enumeration did not end";
+        for (auto &e : got) e = canon(x.directed, e.first, e.second);
+        std::sort(got.begin(), got.end());
+        if (got != x.edgeMultiset()) {
+            m << "edges(): " << got.size() << " edges enumerated, they are not the " << x.totalCopies() << " expected ones";
+            return m.str();
+        }
+        for (auto &kv : x.e)
+            if (!g.hasEdge(kv.first.first, kv.first.second)) {
+                m << "hasEdge(" << kv.first.first << "," << kv.first.second << "): expected true";
+                return m.str();
+            }
+    } catch (std::exception &ex) {
+        return std::string("observers-threw: ") + ex.what();
+    }
+    return "";
+}
+
 // C08's own observers: vertex range-for yields 0..n-1 in order, edges() yields the model's edges exactly once
 // (one orientation per undirected edge, first <= second), nothing else.
 template <class G> std::string checkEnumeration(const G &g, const Expect &x, ObsCounters &oc) {
